@@ -1379,6 +1379,22 @@ def run(tier):
             confirmed.append(f)
         if p and p.get("error"):
             res.notes.append("compiler-level replay for %s could not run: %s" % (f, p["error"][-300:]))
+    # the [0, 3, 8] two-core witness of scales_odd_slice_refuted on the implementation (a hypothesis, not a violation:
+    # every slice list the scheduler builds has interior boundaries that are multiples of 16 or of the block depth)
+    odd_impl = None
+    try:
+        clear_cache()
+        oc = build(CORPUS[0])
+        s_, r_ = call_real(oc, CORPUS[0]["offs"])
+        if s_ == "ok":
+            rr = ranges_of(r_[0])[1]  # (core 1, slice [0, 3))
+            got = [parse_record(r_[0].buffer[rr[2] + 10 * j: rr[2] + 10 * j + 10])[0] for j in range(rr[3] // 10)]
+            bv = [int(x) for x in oc["b"].values]
+            odd_impl = dict(core=rr[0], slice=[0, 3], scale_bytes=rr[3], record_biases=got, biases_of_channels_1_and_3=[bv[1], bv[3]],
+                            confirmed=got == [bv[1], bv[3]])
+        clear_cache()
+    except Exception as ex:
+        odd_impl = dict(error=repr(ex))
     odd = None
     if okx:
         o = models.run("channels", [[2, 8, 16, 8, 3, 0, 3, 8]], exe_name=EXE)[0]
@@ -1394,6 +1410,7 @@ def run(tier):
         "history_responses": {"miss": st["hist_kinds"][1], "hit": st["hist_kinds"][2], "hit_scales_reencoded": st["hist_kinds"][3]},
         "compiled": st["d2"], "samples": st["samples"], "timing_s": timing,
         "odd_slice_witness_on_model [core d len | code channels | spec channels]*": odd,
+        "odd_slice_witness_on_implementation": odd_impl,
         "cache_refutation_replayed": wit,
         "function_level_only_stale_fields (random histories)": sorted(st["stale_fn"]),
     })
